@@ -18,6 +18,10 @@ pub enum Step {
     Snapshot(usize),
     /// the host registers the function `late` in the context (it was not there before)
     Register,
+    /// from here on the host works with one long-lived inner scope of the context
+    OpenScope,
+    /// the host binds, in that scope, a name the programs read (the root binds it too)
+    Shadow(u8),
 }
 
 #[derive(Clone, Debug, Serialize, Deserialize)]
@@ -205,7 +209,135 @@ pub fn gen_history(u: &mut Chooser) -> History {
         let at = u.below(steps.len() + 1);
         steps.insert(at, Step::Register);
     }
+    if u.chance(1, 3) {
+        // a long-lived inner scope from some point on, with one to three re-bindings after executions have looked the names up
+        let at = u.below(steps.len() / 2 + 1);
+        steps.insert(at, Step::OpenScope);
+        for _ in 0..1 + u.below(3) {
+            let pos = at + 1 + u.below(steps.len() - at);
+            steps.insert(pos, Step::Shadow(u.below(16) as u8));
+        }
+    }
     History { ctx, programs, steps }
+}
+
+struct HState<'h> {
+    h: &'h History,
+    progs: Vec<(String, Program, String)>,
+    /// the bindings a program sees (later entries shadow earlier ones of the same name)
+    h_ctx: Vec<(String, V)>,
+    /// the root context's own bindings: no execution and no inner scope ever changes them
+    root_model: Vec<(String, V)>,
+    first: Vec<Option<R>>,
+    late_registered: bool,
+    /// every value obtained so far (real interpreter values sharing Arcs with whatever produced them) with its deep model copy
+    kept: Vec<(String, Value, V)>,
+    reexec: usize,
+    concat_reexec_with_kept: bool,
+}
+
+impl HState<'_> {
+    fn exec(&mut self, k: usize, i: usize, ctx: &Context) -> Result<(), String> {
+        let h = self.h;
+        let (src, p, _) = &self.progs[i];
+        let res = match guard(|| p.execute(ctx)) {
+            Ok(r) => r,
+            Err(pn) => return Err(format!("step {k}: `{src}` {}", pn.short())),
+        };
+        let r = sut::from_result(res.clone());
+        // every execution, first or repeated, must be what the program yields "alone": the reference evaluator's result
+        let cf: Vec<(String, V)> = if self.late_registered { vec![("late".to_string(), V::Int(42))] } else { vec![] };
+        let variants = crate::props::c03::model_variants_with(&h.programs[i], &self.h_ctx, &vec![], false, &cf);
+        let mut order_dependent = false;
+        match &variants[0].0 {
+            Err(crate::model::eval::Stop::Unsupported(why)) => {
+                // ranging over a map with several entries: results may legitimately differ between executions
+                // ("up to the unspecified iteration order of maps")
+                order_dependent = why.contains("multi-entry map");
+            }
+            model => {
+                if !variants.iter().any(|(m, _)| crate::props::c03::agree(m, &r)) {
+                    return Err(format!("step {k}: `{src}` yields {} in this history; executed alone against this context the reference semantics give {:?} (earlier steps: {:?})", r.show(), model, &h.steps[..k]));
+                }
+            }
+        }
+        // a macro ranging over a map with several entries visits them in an unspecified order that may differ from one
+        // execution to the next ("up to the unspecified iteration order of maps"): decided from the program text and
+        // the context, independently of whether the reference evaluator covers the program
+        let multi = |v: &V| v.any(&|x| matches!(x, V::Map(es) if es.len() >= 2));
+        if h.programs[i].any(&|x| matches!(x, E::Macro(..))) && (h.programs[i].any(&|x| matches!(x, E::Map(es) if es.len() >= 2)) || self.h_ctx.iter().any(|(n, v)| multi(v) && h.programs[i].any(&|x| matches!(x, E::Var(m) if m == n)))) {
+            order_dependent = true;
+        }
+        match &self.first[i] {
+            None => self.first[i] = Some(r),
+            Some(f) => {
+                self.reexec += 1;
+                // (an order-dependent result can differ arbitrarily - `m.filter(..)[0]` - so it is not compared at all)
+                if !order_dependent && !same_result(f, &r) {
+                    return Err(format!("step {k}: executing `{src}` again against the unchanged context gives {}, the first execution gave {} (context {})", r.show(), f.show(), sut::trunc(&format!("{:?}", self.h_ctx), 500)));
+                }
+                let appends = h.programs[i].any(&|x| matches!(x, E::Bin(Op::Add, ..) | E::Macro(..)));
+                if appends && !self.kept.is_empty() {
+                    self.concat_reexec_with_kept = true;
+                }
+            }
+        }
+        if let Ok(v) = res {
+            let m = from_cel(&v);
+            self.kept.push((format!("result of `{src}` at step {k}"), v, m));
+        }
+        Ok(())
+    }
+
+    fn snapshot(&mut self, k: usize, vi: usize, ctx: &Context) {
+        let name = self.h_ctx[vi % self.h_ctx.len()].0.clone();
+        if let Ok(v) = ctx.get_variable(name.as_str()) {
+            let m = from_cel(&v);
+            self.kept.push((format!("get_variable({name}) at step {k}"), v, m));
+        }
+    }
+
+    /// results of programs that mention `name` legitimately change from here on
+    fn forget(&mut self, mentions: &dyn Fn(&E) -> bool) {
+        for (i, e) in self.h.programs.iter().enumerate() {
+            if e.any(mentions) {
+                self.first[i] = None;
+            }
+        }
+    }
+
+    fn invariants(&self, k: usize, st: &Step, root: &Context, scope: Option<&Context>) -> Result<(), String> {
+        let srcs = || self.progs.iter().map(|p| &p.0).collect::<Vec<_>>();
+        for (name, orig) in &self.root_model {
+            match root.get_variable(name.as_str()) {
+                Ok(v) if same(&from_cel(&v), orig) => {}
+                other => return Err(format!("after step {k} ({st:?}) the context variable {name} reads {:?}, it was {orig:?} before the first execution; programs {:?}", other.as_ref().map(from_cel), srcs())),
+            }
+        }
+        if let Some(sc) = scope {
+            // what the long-lived inner scope answers: its own latest binding of a name, else the root's
+            for (i, (name, want)) in self.h_ctx.iter().enumerate() {
+                if self.h_ctx[i + 1..].iter().any(|(n, _)| n == name) {
+                    continue;
+                }
+                match sc.get_variable(name.as_str()) {
+                    Ok(v) if same(&from_cel(&v), want) => {}
+                    other => return Err(format!("after step {k} ({st:?}) the inner scope answers {:?} for {name}; its innermost binding is {want:?}", other.as_ref().map(from_cel))),
+                }
+            }
+        }
+        for (what, v, m) in &self.kept {
+            if !same(&from_cel(v), m) {
+                return Err(format!("after step {k} ({st:?}) the value kept from {what} changed: it was {m:?}, it now reads {:?}; programs {:?}", from_cel(v), srcs()));
+            }
+        }
+        for (src, p, dbg) in &self.progs {
+            if format!("{p:?}") != *dbg {
+                return Err(format!("after step {k} the program `{src}` itself changed"));
+            }
+        }
+        Ok(())
+    }
 }
 
 pub fn check_history(h: &History) -> Outcome {
@@ -239,113 +371,83 @@ pub fn check_history(h: &History) -> Outcome {
             }
         }
     }
-    let h_ctx = model_ctx;
-    let mut first: Vec<Option<R>> = vec![None; progs.len()];
-    let mut late_registered = false;
-    // every value obtained so far (real interpreter values sharing Arcs with whatever produced them) with its deep model copy
-    let mut kept: Vec<(String, Value, V)> = seed_values;
-    let mut reexec = 0;
-    let mut concat_reexec_with_kept = false;
-    for (k, st) in h.steps.iter().enumerate() {
-        match st {
-            Step::Exec(i) => {
-                let (src, p, _) = &progs[*i];
-                let res = match guard(|| p.execute(&ctx)) {
-                    Ok(r) => r,
-                    Err(pn) => return fail(format!("step {k}: `{src}` {}", pn.short())),
-                };
-                let r = sut::from_result(res.clone());
-                // every execution, first or repeated, must be what the program yields "alone": the reference evaluator's result
-                let cf: Vec<(String, V)> = if late_registered { vec![("late".to_string(), V::Int(42))] } else { vec![] };
-                let variants = crate::props::c03::model_variants_with(&h.programs[*i], &h_ctx, &vec![], false, &cf);
-                let mut order_dependent = false;
-                match &variants[0].0 {
-                    Err(crate::model::eval::Stop::Unsupported(why)) => {
-                        // ranging over a map with several entries: results may legitimately differ between executions
-                        // ("up to the unspecified iteration order of maps")
-                        order_dependent = why.contains("multi-entry map");
-                    }
-                    model => {
-                        if !variants.iter().any(|(m, _)| crate::props::c03::agree(m, &r)) {
-                            return fail(format!("step {k}: `{src}` yields {} in this history; executed alone against this context the reference semantics give {:?} (earlier steps: {:?})", r.show(), model, &h.steps[..k]));
-                        }
-                    }
-                }
-                // a macro ranging over a map with several entries visits them in an unspecified order that may differ from one
-                // execution to the next ("up to the unspecified iteration order of maps"): decided from the program text and
-                // the context, independently of whether the reference evaluator covers the program
-                let multi = |v: &V| v.any(&|x| matches!(x, V::Map(es) if es.len() >= 2));
-                if h.programs[*i].any(&|x| matches!(x, E::Macro(..))) && (h.programs[*i].any(&|x| matches!(x, E::Map(es) if es.len() >= 2)) || h_ctx.iter().any(|(n, v)| multi(v) && h.programs[*i].any(&|x| matches!(x, E::Var(m) if m == n)))) {
-                    order_dependent = true;
-                }
-                match &first[*i] {
-                    None => first[*i] = Some(r),
-                    Some(f) => {
-                        reexec += 1;
-                        // (an order-dependent result can differ arbitrarily - `m.filter(..)[0]` - so it is not compared at all)
-                        if !order_dependent && !same_result(f, &r) {
-                            return fail(format!("step {k}: executing `{src}` again against the unchanged context gives {}, the first execution gave {} (context {})", r.show(), f.show(), sut::trunc(&format!("{:?}", h_ctx), 500)));
-                        }
-                        let appends = h.programs[*i].any(&|x| matches!(x, E::Bin(Op::Add, ..) | E::Macro(..)));
-                        if appends && !kept.is_empty() {
-                            concat_reexec_with_kept = true;
-                        }
-                    }
-                }
-                if let Ok(v) = res {
-                    let m = from_cel(&v);
-                    kept.push((format!("result of `{src}` at step {k}"), v, m));
-                }
-            }
+    let n = progs.len();
+    let mut st = HState { h, progs, root_model: model_ctx.clone(), h_ctx: model_ctx, first: vec![None; n], late_registered: false, kept: seed_values, reexec: 0, concat_reexec_with_kept: false };
+    // phase 1: everything runs against the root context, up to the step (if any) that opens a long-lived inner scope
+    let open_at = h.steps.iter().position(|s| matches!(s, Step::OpenScope)).unwrap_or(h.steps.len());
+    for (k, step) in h.steps.iter().enumerate().take(open_at) {
+        let r = match step {
+            Step::Exec(i) => st.exec(k, *i, &ctx),
             Step::Register => {
-                if !late_registered {
+                if !st.late_registered {
                     ctx.add_function("late", || 42i64);
-                    late_registered = true;
-                    // results of programs that call `late` legitimately change from here on
-                    for (i, e) in h.programs.iter().enumerate() {
-                        if e.any(&|x| matches!(x, E::Call(n, ..) if n == "late") || matches!(x, E::Select(_, f) if f == "late")) {
-                            first[i] = None;
-                        }
-                    }
+                    st.late_registered = true;
+                    st.forget(&|x| matches!(x, E::Call(n, ..) if n == "late") || matches!(x, E::Select(_, f) if f == "late"));
                 }
+                Ok(())
             }
             Step::Snapshot(vi) => {
-                let (name, _) = &h_ctx[*vi];
-                if let Ok(v) = ctx.get_variable(name.as_str()) {
-                    let m = from_cel(&v);
-                    kept.push((format!("get_variable({name}) at step {k}"), v, m));
+                st.snapshot(k, *vi, &ctx);
+                Ok(())
+            }
+            Step::OpenScope | Step::Shadow(_) => Ok(()),
+        };
+        if let Err(m) = r.and_then(|_| st.invariants(k, step, &ctx, None)) {
+            return fail(m);
+        }
+    }
+    // phase 2: the host keeps one inner scope, executes against it, and now and then binds a name in it that the root
+    // (or the scope itself) already binds
+    let mut scoped = false;
+    if open_at < h.steps.len() {
+        scoped = true;
+        let mut scope = ctx.new_inner_scope();
+        for (k, step) in h.steps.iter().enumerate().skip(open_at + 1) {
+            let r = match step {
+                Step::Exec(i) => st.exec(k, *i, &scope),
+                Step::Snapshot(vi) => {
+                    st.snapshot(k, *vi, &scope);
+                    Ok(())
                 }
-            }
-        }
-        // invariants after every step
-        for (name, orig) in &h_ctx {
-            match ctx.get_variable(name.as_str()) {
-                Ok(v) if same(&from_cel(&v), orig) => {}
-                other => return fail(format!("after step {k} ({st:?}) the context variable {name} reads {:?}, it was {orig:?} before the first execution; programs {:?}", other.as_ref().map(from_cel), progs.iter().map(|p| &p.0).collect::<Vec<_>>())),
-            }
-        }
-        for (what, v, m) in &kept {
-            if !same(&from_cel(v), m) {
-                return fail(format!("after step {k} ({st:?}) the value kept from {what} changed: it was {m:?}, it now reads {:?}; programs {:?}", from_cel(v), progs.iter().map(|p| &p.0).collect::<Vec<_>>()));
-            }
-        }
-        for (src, p, dbg) in &progs {
-            if format!("{p:?}") != *dbg {
-                return fail(format!("after step {k} the program `{src}` itself changed"));
+                Step::Shadow(n) => {
+                    // names the programs read, rebound to another value of the same type
+                    let (name, val) = match n % 4 {
+                        0 => ("x", V::Int(5000 + *n as i64)),
+                        1 => ("s0", V::Str(format!("shadow{n}"))),
+                        2 => ("l0", V::List(vec![V::Int(*n as i64), V::Int(1)])),
+                        _ => ("b0", V::Bool(n % 8 < 4)),
+                    };
+                    if n % 2 == 0 {
+                        scope.add_variable_from_value(name, to_cel(&val).unwrap());
+                    } else if scope.add_variable(name, sut::SerdeV(&val)).is_err() {
+                        scope.add_variable_from_value(name, to_cel(&val).unwrap());
+                    }
+                    st.h_ctx.push((name.to_string(), val));
+                    st.forget(&|x| matches!(x, E::Var(v) if v == name));
+                    Ok(())
+                }
+                // functions live in the root, which the scope borrows: nothing to register here
+                Step::Register | Step::OpenScope => Ok(()),
+            };
+            if let Err(m) = r.and_then(|_| st.invariants(k, step, &ctx, Some(&scope))) {
+                return fail(m);
             }
         }
     }
     let mut cl = vec!["history"];
-    if concat_reexec_with_kept {
+    if st.concat_reexec_with_kept {
         cl.push("concatenating-program-re-executed-with-kept-results");
     }
-    if reexec > 0 {
+    if st.reexec > 0 {
         cl.push("re-execution");
     }
-    if h.programs.len() >= 20 && reexec >= 17 {
+    if scoped {
+        cl.push("long-lived-inner-scope");
+    }
+    if h.programs.len() >= 20 && st.reexec >= 17 {
         cl.push("many-distinct-programs-re-executed");
     }
-    pass_n(concat_reexec_with_kept || (h.programs.len() >= 20 && reexec >= 17), cl)
+    pass_n(st.concat_reexec_with_kept || (h.programs.len() >= 20 && st.reexec >= 17), cl)
 }
 
 // ------------------------------------------------------------------------------------------------
